@@ -63,7 +63,7 @@ func points(k blk.Kind) []string {
 		p = append(p, "queue.before_push", "queue.after_push")
 		p = append(p, "release-after-a-rejection-at-the-full-backlog", "second-release-inside-the-strategy", "refused-handoff-with-a-cancelled-head")
 		if k.Evict {
-			p = append(p, "handoff-vs-cancel")
+			p = append(p, "handoff-vs-cancel", "cancel-right-after-the-handoff")
 		} else {
 			p = append(p, "handoff-vs-timeout", "next-in-line-cancelled-but-not-evicted")
 		}
@@ -77,7 +77,7 @@ func grid() []scenario {
 		for _, p := range points(k) {
 			for cap := 1; cap <= 2; cap++ {
 				for nw := 1; nw <= 3; nw++ {
-					if ((p == "loser-retry" || p == "parallel-releases" || p == "second-release-at-refused-handoff" || p == "second-release-inside-the-strategy") && (cap < 2 || nw < 2)) || (p == "refused-handoff-with-a-cancelled-head" && (nw < 2 || k.Evict)) || ((strings.HasPrefix(p, "handoff") || strings.HasPrefix(p, "next-in-line") || p == "winner-cancelled-at-wakeup") && nw < 2) {
+					if ((p == "loser-retry" || p == "parallel-releases" || p == "second-release-at-refused-handoff" || p == "second-release-inside-the-strategy") && (cap < 2 || nw < 2)) || (p == "refused-handoff-with-a-cancelled-head" && (nw < 2 || k.Evict)) || ((strings.HasPrefix(p, "handoff") || p == "cancel-right-after-the-handoff" || strings.HasPrefix(p, "next-in-line") || p == "winner-cancelled-at-wakeup") && nw < 2) {
 						continue
 					}
 					for _, o := range outcomes {
@@ -283,7 +283,7 @@ func run(t *testing.T, sc scenario, r *rand.Rand) outcomeT {
 		}
 		for i := 0; i < sc.Waiters; i++ {
 			w.Spawn()
-			if sc.Point == "asleep" || sc.Point == "loser-retry" || sc.Point == "parallel-releases" || sc.Point == "second-release-at-refused-handoff" || sc.Point == "slow-inner-release" || sc.Point == "winner-cancelled-at-wakeup" || sc.Point == "release-after-a-rejection-at-the-full-backlog" || sc.Point == "second-release-inside-the-strategy" || sc.Point == "refused-handoff-with-a-cancelled-head" || strings.HasPrefix(sc.Point, "handoff") || strings.HasPrefix(sc.Point, "next-in-line") {
+			if sc.Point == "asleep" || sc.Point == "loser-retry" || sc.Point == "parallel-releases" || sc.Point == "second-release-at-refused-handoff" || sc.Point == "slow-inner-release" || sc.Point == "winner-cancelled-at-wakeup" || sc.Point == "release-after-a-rejection-at-the-full-backlog" || sc.Point == "second-release-inside-the-strategy" || sc.Point == "refused-handoff-with-a-cancelled-head" || sc.Point == "cancel-right-after-the-handoff" || strings.HasPrefix(sc.Point, "handoff") || strings.HasPrefix(sc.Point, "next-in-line") {
 				w.Quiesce() // arrival order is a fact
 				if sc.Point == "handoff-vs-timeout" {
 					time.Sleep(time.Millisecond)
@@ -359,6 +359,17 @@ func run(t *testing.T, sc scenario, r *rand.Rand) outcomeT {
 		case "handoff-vs-cancel":
 			releaseNext()
 			snap("after-release-with-handoff-to-cancelled-waiter")
+		case "cancel-right-after-the-handoff":
+			// the next-in-line caller's context ends when the token has just been put into its hands, before it ran: it
+			// may keep the token or give it up - a token it gives up goes to the caller behind it
+			nl := w.Waiters[0]
+			if sc.Kind.Ordering == "lifo" {
+				nl = w.Waiters[len(w.Waiters)-1]
+			}
+			releaseNext()
+			w.CancelWaiter(nl)
+			reached.Store(true)
+			snap("after-release-and-cancellation-of-the-caller-just-served")
 		case "next-in-line-cancelled-but-not-evicted":
 			// without eviction a cancelled caller stays queued; the release must still serve somebody
 			nl := w.Waiters[0]
